@@ -309,6 +309,46 @@ def fit_pairing_probe(ctx, rng, kind):
                detail={"bad": bad[:5], "seen": len(seen)}, sig=f"{kind}/fit-pairing", theorem="C07_own_basis (C03: NLL in each sample's own basis)")
 
 
+def history_probe(ctx, case):
+    """same state object, same sample/basis/space tensors: overwrite all parameters in place and compare the public gradients
+    with the model at the NEW parameters (stale caches inside the gradient code would keep following the old ones)"""
+    if ctx.driver is None:
+        return
+    import random as _r
+    rng = _r.Random(case["data"][0][1] + str(len(case["data"])) + str(case["am"]["b"][0]))
+    kind, n, h, a = case["kind"], case["n"], case["h"], case.get("a", 0)
+    data = [(list(s), b) for s, b in case["data"]]
+    S, B = tensors(data)
+    space_t = torch.tensor(qc.all_states(n), dtype=torch.double)
+    D = dict_np()
+    if kind == "pos":
+        st = qc.make_positive(n, h, case["am"]); first = st.compute_exact_gradients(S, space_t)
+        am2 = qc.rand_rbm_params(rng, n, h, 0.8); ph2 = None
+        qc.set_rbm(st.rbm_am, am2, inplace=True)
+        ex = [t.numpy().copy() for t in st.compute_exact_gradients(S, space_t)]
+        m = ctx.driver.call("c03.pos", n=n, h=h, am=qc.pbits(am2), rows=bits([s for s, _ in data]))
+        model = [unbits(m["exact"])]
+    else:
+        dict_enc = {L: [[[f2b(D[L][r][c].real), f2b(D[L][r][c].imag)] for c in range(2)] for r in range(2)] for L in "XYZ"}
+        samples = [{"bits": s, "basis": b} for s, b in data]
+        if kind == "cplx":
+            st = qc.make_complex(n, h, case["am"], case["ph"]); first = st.compute_exact_gradients(S, space_t, B)
+            am2 = qc.rand_rbm_params(rng, n, h, 0.8); ph2 = qc.rand_rbm_params(rng, n, h, 0.8)
+            qc.set_rbm(st.rbm_am, am2, inplace=True); qc.set_rbm(st.rbm_ph, ph2, inplace=True)
+            m = ctx.driver.call("c03.cplx", n=n, h=h, am=qc.pbits(am2), ph=qc.pbits(ph2), dict=dict_enc, samples=samples)
+        else:
+            st = qc.make_density(n, h, a, case["am"], case["ph"]); first = st.compute_exact_gradients(S, space_t, B)
+            am2 = qc.rand_prbm_params(rng, n, h, a, 0.8); ph2 = qc.rand_prbm_params(rng, n, h, a, 0.8, d_zero=True)
+            qc.set_prbm(st.rbm_am, am2, inplace=True); qc.set_prbm(st.rbm_ph, ph2, inplace=True)
+            m = ctx.driver.call("c03.dm", n=n, h=h, a=a, am=qc.pbits(am2), ph=qc.pbits(ph2), dict=dict_enc, eps=f2b(EPS), samples=samples)
+        ex = [t.numpy().copy() for t in st.compute_exact_gradients(S, space_t, B)]
+        model = [unbits(m["exact"][0]), unbits(m["exact"][1])]
+    hcase = {**case, "history": True}
+    for i, (e, mo) in enumerate(zip(ex, model)):
+        ctx.point(f"compute_exact_gradients[{i}] after in-place re-parametrisation (same objects)", "property", e, mo, hcase,
+                  scale=max(1.0, float(np.max(np.abs(e)))), rtol=2e-6, atol=1e-8, sig=f"{kind}/history", theorem=TH[kind])
+
+
 def gen_cases(ctx, thorough):
     rng = ctx.rng
     plan = []
@@ -333,8 +373,10 @@ def gen_cases(ctx, thorough):
 
 def run(ctx):
     ctx.rule = RULE
-    for case in gen_cases(ctx, ctx.tier == "thorough"):
+    for k_, case in enumerate(gen_cases(ctx, ctx.tier == "thorough")):
         one_case(ctx, case)
+        if k_ % 2 == 0:
+            history_probe(ctx, case)
     for kind in ("cplx", "dm"):
         for _ in range(4 if ctx.tier == "thorough" else 1):
             fit_pairing_probe(ctx, ctx.rng, kind)
@@ -355,3 +397,5 @@ def replay(ctx, case):
         fit_pairing_probe(ctx, _r.Random(0), case["kind"])
     else:
         one_case(ctx, case)
+        if case.get("history"):
+            history_probe(ctx, case)
